@@ -27,12 +27,15 @@ struct Step : Statement {
     return _next;
   }
 };
-static int nfinal = 0; static int final_at[2] = { -1, -1 };
+static int nfinal = 0; static int final_at[3] = { -1, -1, -1 };
 struct Loop : Controller {
   int id;
   Loop() : Controller(STMT_WHILE), id(0) {}
   void finalizeControl(Context&, void*) const override { final_at[id] = nfinal++; }
+  /* as a statement of the list (script digit 5): a loop that takes the control and fails during its very first iteration */
+  const Statement* doit(Context& ctx) const override;
 };
+const Statement* Loop::doit(Context& ctx) const { ran_at[3] = nrun++; ctx.stackControl(this, nullptr); tmp_of_failed = &ctx.allocate(Value(Integer(9))); throw RuntimeError(EXC_RT_DIVIDE_BY_ZERO); }
 extern "C" void c07_run()
 {
   static Context ctx(1, 2);
@@ -40,13 +43,14 @@ extern "C" void c07_run()
   static Step s0, s1, s1b, s2; s0.id = 0; s1.id = 1; s1b.id = 2; s2.id = 3;
   s1._next = &s1b;                                  /* a statement chain inside the list */
   /* what each step does is the instance parameter VX_ACTS (one digit per step s0 s1 s1b s2: 0 nothing 1 break 2 continue 3 return
-     4 raise): with symbolic actions the sizes of the control stack and of the pool depend on solver variables and the SAT back end
+     4 raise, 5 (last step only) a loop that takes the control and fails in its first iteration): with symbolic actions the sizes of the control stack and of the pool depend on solver variables and the SAT back end
      runs out of memory (15 GB). Symbolic: whether a return is already pending at entry. */
 #ifndef VX_ACTS
 #define VX_ACTS "0040"
 #endif
   s0.action = VX_ACTS[0] - '0'; s1.action = VX_ACTS[1] - '0'; s1b.action = VX_ACTS[2] - '0'; s2.action = VX_ACTS[3] - '0';
-  static std::list<const Statement*> prog; prog.push_back(&s0); prog.push_back(&s1); prog.push_back(&s2);
+  static Loop lstep; lstep.id = 2; const bool loopstep = (VX_ACTS[3] == '5');
+  static std::list<const Statement*> prog; prog.push_back(&s0); prog.push_back(&s1); if (loopstep) prog.push_back(&lstep); else prog.push_back(&s2);
   /* execution level of the running block: 2 enclosing blocks */
   static Step blk1, blk2; ctx.execBegin(&blk1); ctx.execBegin(&blk2);
   size_t lvl = ctx.execLevel();
@@ -73,7 +77,7 @@ extern "C" void c07_run()
       expect[1] = n++; if (s1.action == 4) raised = true;
       if (!raised) { expect[2] = n++; if (s1b.action == 4) raised = true; }        /* the chain of one list entry runs to its end */
       if (!raised && (s1.action != 0 || s1b.action != 0)) stop = true;
-      if (!raised && !stop) { expect[3] = n++; if (s2.action == 4) raised = true; }
+      if (!raised && !stop) { expect[3] = n++; if (s2.action == 4 || loopstep) raised = true; }
     }
   }
   for (int k = 0; k < 4; ++k) verif_assert(ran_at[k] == expect[k], "C06: statements run in list order, a chain to its end, and none after a break / continue / return or with a return pending");
@@ -81,8 +85,10 @@ extern "C" void c07_run()
   verif_assert(ctx.execLevel() == lvl, "C07: the statement loop does not change the execution level");
   if (thrown) {
     bool drop_inner = li >= lvl, drop_outer = lo >= lvl;
+    const int base = (loopstep && ran_at[3] >= 0) ? 1 : 0;
+    if (base) verif_assert(final_at[2] == 0, "C07/C06: a loop that fails during its very first iteration is unstacked and finalised like any other (its level is known from the moment it takes the control)");
     verif_assert((final_at[1] >= 0) == drop_inner && (final_at[0] >= 0) == drop_outer, "C07: an error unstacks exactly the loops started at or inside the current execution level, each finalised once");
-    if (drop_inner && drop_outer) verif_assert(final_at[1] == 0 && final_at[0] == 1, "C07: loops are finalised innermost first");
+    if (drop_inner && drop_outer) verif_assert(final_at[1] == base && final_at[0] == base + 1, "C07: loops are finalised innermost first");
     verif_assert(ctx.topControl() == (drop_outer ? (const Controller*)nullptr : drop_inner ? (const Controller*)&outer : (const Controller*)&inner), "C07: loops started outside the current level keep the control");
     verif_assert(ctx._temporary_storage.count() == 0 && tmp_of_failed != nullptr && tmp_of_failed->isNull(), "C07: temporaries of the interrupted statement are purged");
   } else {
